@@ -134,12 +134,12 @@ def run(chk):
     # the as_mut_vec region of the tokenized writer keeps the String valid UTF-8 (the format rules of C03 are not needed here)
     with chk.only(rules={"R03.2"}):
         c03.run(chk)
-    # state that unchecked reads depend on must not survive an update (the tag slots are sliced with checked indexing)
+    # fill_tags runs the attached predictor's unchecked tag scoring on whatever the sentence now holds: an update that
+    # replaces the text by a parsed one must drop the predictor link (the automaton states are prepared per prediction, R06.3)
     from . import c05 as _c05k
-    chk.rule("R05.1", "sentence fields that unchecked reads depend on are reset by every update (shared with C05)")
-    with chk.only(rules={"R05.1"}):
-        _c05k.kill_rules(chk, w, only_fields=("text", "char_types", "boundaries", "str_to_char_pos", "char_to_str_pos", "char_pma_states", "type_pma_states",
-                                              "boundary_scores", "score_padding", "predictor"))
+    chk.rule("R05.1", "the predictor link is dropped by every update that parses a new text (shared with C05)")
+    with chk.only(rules={"R05.1"}, keys=lambda k: k.endswith(":predictor") and ("update_tokenized" in k or "update_partial_annotation" in k)):
+        _c05k.kill_rules(chk, w, only_fields=("predictor",))
     chk.assumptions.append("ACCUM sites (line-break / grapheme filters): offsets are sums of len_utf8() resp. grapheme lengths of the same text; not decided statically")
 
 
